@@ -659,6 +659,9 @@ class Node:
             # If creating an inherited node, use the parent class as constructor
             child_class = child.__class__
 
+            if data_id is None:
+                # Keep a custom data_id of the source (instead of re-calculating)
+                data_id = source_node._data_id
             node = child_class(
                 source_node.data, parent=self, data_id=data_id, node_id=node_id
             )
